@@ -679,7 +679,6 @@ static inline flatcc_builder_ref_t emit_back(flatcc_builder_t *B, iov_state_t *i
     flatcc_builder_ref_t ref;
 
     ref = B->emit_end;
-    B->emit_end = ref + (flatcc_builder_ref_t)iov->len;
     /*
      * Similar to emit_front check, but since we only emit vtables and
      * padding at the back, we are not concerned with iov->len overflow,
@@ -689,10 +688,12 @@ static inline flatcc_builder_ref_t emit_back(flatcc_builder_t *B, iov_state_t *i
      * still overflow in extreme cases, so this must be checked
      * separately.
      */
-    if (B->emit_end < ref) {
+    if (ref < 0 || iov->len > (size_t)(FLATBUFFERS_SOFFSET_MAX - ref)) {
         check(0, "buffer too large to represent");
         return 0;
     }
+    /* Cannot overflow now; signed overflow is undefined so it must not be tested after the fact. */
+    B->emit_end = ref + (flatcc_builder_ref_t)iov->len;
     if (B->emit(B->emit_context, iov->iov, iov->count, ref, iov->len)) {
         check(0, "emitter rejected buffer content");
         return 0;
